@@ -867,6 +867,103 @@ Proof.
     inversion H; subst; cbn [kill dead] in Hd; try discriminate; unfold contents; cbn [fifo]; auto.
   - rewrite map_app. reflexivity.
   - match goal with E : fifo mo = _ |- _ => rewrite E end. reflexivity.
+  - match goal with E : fifo mo = _ |- _ => rewrite E end. reflexivity.
+Qed.
+
+Theorem fifo_refinement c s mo o v mo' : wf c -> Live c s mo ->
+  mstep false (lmod c) (Size c) (ovh c) mo o (snd (step c s o)) = (v, mo') -> dead mo' = false ->
+  v = Ok /\ snd (step c s o) <> OFault /\ Live c (fst (step c s o)) mo' /\
+  contents mo' = fifo_spec (contents mo) o (snd (step c s o)).
+Proof.
+  intros Hwf HL Hm Hd.
+  destruct (step_sim false c s mo o Hwf HL ltac:(intros H; discriminate)) as (mo2 & Hm2 & Hnext).
+  rewrite Hm in Hm2. inversion Hm2; subst v mo2.
+  destruct Hnext as [Hdead|(Hnf & HL')]; [congruence|].
+  repeat split; auto; try apply HL'. eapply mstep_contents; eauto.
+Qed.
+
+(* ... next_end returns its head, at the place and with the bytes of its commit ... *)
+Theorem peek_returns_oldest c s mo : wf c -> Live c s mo ->
+  step c s Peek = (s, match fifo mo with [] => ONone | (po, cc) :: _ => OPeek po (length cc) cc end).
+Proof.
+  intros Hwf (Hd & HR). pose proof HR as (Hlm & Hls & Hsh & Hint & Hok & Hcur). cbn [step].
+  destruct (front s =? end_ s) eqn:Hfe.
+  - assert (H : fifo mo = []) by (apply pd_nil, (shape_empty_iff _ _ _ Hsh); lia). rewrite H. reflexivity.
+  - destruct (fifo mo) as [|[po cc] t] eqn:Hfifo.
+    + exfalso. assert (front s = end_ s) by (apply (shape_empty_iff _ _ _ Hsh); reflexivity). lia.
+    + pose proof Hsh as Hh. simpl in Hh. apply shape_head in Hh. cbn [fst snd] in Hh.
+      destruct Hh as (Hpo & Hlen & Hl1 & Hbd).
+      pose proof (plen_ge3 c (mem s) (end_ s) Hl1) as H3.
+      unfold hdr_in. replace (end_ s + hdr <=? Size c) with true by (unfold hdr; lia). cbn [negb].
+      rewrite <- Hlen. replace (end_ s + length cc <=? Size c) with true by lia.
+      inversion Hint as [|x y Hx Hy]; subst. cbn [fst snd] in Hx. rewrite Hx. reflexivity.
+Qed.
+
+(* ... and every live PDU still has the bytes of its commit in memory *)
+Theorem live_pdus_intact c s mo : Live c s mo ->
+  Forall (fun pc => slice (mem s) (fst pc) (length (snd pc)) = snd pc) (fifo mo).
+Proof. intros (_ & _ & _ & _ & H & _). exact H. Qed.
+
+(* live PDUs never overlap and lie inside the storage *)
+Lemma chain_all_apart c m l : forall a b, chain c m a l b -> all_apart l.
+Proof.
+  induction l as [|p t IH]; intros a b H; simpl; auto.
+  destruct H as (H0 & H1 & H2 & H). split; [|eapply IH; eauto].
+  intros q Hq. destruct (chain_in _ _ _ _ _ _ H Hq) as (? & _). left. lia.
+Qed.
+
+Lemma all_apart_app l1 : forall l2, all_apart l1 -> all_apart l2 ->
+  (forall p q, In p l1 -> In q l2 -> apart p q) -> all_apart (l1 ++ l2).
+Proof.
+  induction l1 as [|p t IH]; intros l2 H1 H2 H12; simpl; auto.
+  destruct H1 as (Hp & Ht). split.
+  - intros q Hq. apply in_app_or in Hq. destruct Hq; [apply Hp; auto|apply H12; simpl; auto].
+  - apply IH; auto. intros; apply H12; simpl; auto.
+Qed.
+
+Theorem live_pdus_apart c s mo : Live c s mo ->
+  all_apart (pd (fifo mo)) /\ Forall (fun p => fst p + snd p <= Size c /\ 3 <= snd p) (pd (fifo mo)).
+Proof.
+  intros (_ & _ & _ & Hsh & _). split.
+  - pose proof Hsh as H. shape_cases H.
+    + rewrite Hl. simpl. auto.
+    + eapply chain_all_apart; eauto.
+    + rewrite Hl. apply all_apart_app; try (eapply chain_all_apart; eauto).
+      intros p q Hp Hq. destruct (chain_in _ _ _ _ _ _ Hcu Hp) as (? & _).
+      destruct (chain_in _ _ _ _ _ _ Hcl Hq) as (_ & ? & _). right. lia.
+  - apply Forall_forall. intros p Hp. split; [eapply shape_in_bound; eauto|].
+    pose proof Hsh as H. shape_cases H.
+    + rewrite Hl in Hp. destruct Hp.
+    + destruct (chain_in _ _ _ _ _ _ Hch Hp) as (_ & _ & ? & _). auto.
+    + rewrite Hl in Hp. apply in_app_or in Hp. destruct Hp as [Hp|Hp].
+      * destruct (chain_in _ _ _ _ _ _ Hcu Hp) as (_ & _ & ? & _). auto.
+      * destruct (chain_in _ _ _ _ _ _ Hcl Hp) as (_ & _ & ? & _). auto.
+Qed.
+
+(* a region handed out by alloc_front lies inside the storage and is apart from every live PDU *)
+Theorem alloc_region_free c s mo n off : Live c s mo -> alloc_front c s n = Some off ->
+  off + n <= Size c /\ forall p, In p (pd (fifo mo)) -> apart (off, n) p.
+Proof.
+  intros (_ & _ & _ & Hsh & _) Ha. pose proof (alloc_front_ok _ _ _ _ _ Hsh Ha) as Hao. split.
+  - eapply alloc_ok_bound; eauto.
+  - intros p Hp. exact (shape_free _ _ _ _ _ _ Hsh Hao Hp).
+Qed.
+
+(* completeness on a non-empty ring: front_ is the end of the newest, end_ the start of the oldest
+   live PDU, and alloc_front fails only if neither the append region nor the wrap region is free *)
+Theorem alloc_complete_nonempty c s mo n e0 c0 t : Live c s mo -> fifo mo = (e0, c0) :: t ->
+  alloc_front c s n = None ->
+  end_ s = e0 /\ front s = live_end (fifo mo) /\ front s <> end_ s /\
+  (end_ s < front s -> Size c - front s < n /\ end_ s <= n) /\
+  (front s < end_ s -> end_ s - front s <= n).
+Proof.
+  intros (_ & _ & _ & Hsh & _) E Ha.
+  assert (Hne : pd (fifo mo) <> []) by (rewrite E; discriminate).
+  assert (Hfne : fifo mo <> []) by (rewrite E; discriminate).
+  pose proof (shape_last _ _ _ (0, 0) Hsh Hne) as Hlast. rewrite <- (live_end_pd _ Hfne) in Hlast.
+  destruct (alloc_front_none _ _ _ Ha) as (Hn1 & Hn2).
+  pose proof Hsh as Hsh2. rewrite E in Hsh2. simpl in Hsh2. apply shape_head in Hsh2. simpl in Hsh2.
+  repeat split; try tauto; try lia.
 
 Show.
 Abort.
